@@ -44,6 +44,9 @@ type icache struct {
 	sync.RWMutex
 	expire time.Duration
 	items  map[string]item
+	// changes counts the updates and deletes: a lookup that was in flight
+	// while one of them happened must not store what it has fetched
+	changes uint64
 }
 
 func (i *icache) set(k string, v Account) {
@@ -54,6 +57,28 @@ func (i *icache) set(k string, v Account) {
 		value: cpy,
 	}
 	i.Unlock()
+}
+
+// changeCount returns the number of updates and deletes so far
+func (i *icache) changeCount() uint64 {
+	i.RLock()
+	defer i.RUnlock()
+	return i.changes
+}
+
+// setIfUnchanged stores an account that was looked up, unless an update or
+// a delete has happened since count was read: the account may be stale then
+func (i *icache) setIfUnchanged(k string, v Account, count uint64) {
+	cpy := v
+	i.Lock()
+	defer i.Unlock()
+	if i.changes != count {
+		return
+	}
+	i.items[k] = item{
+		exp:   time.Now().Add(i.expire),
+		value: cpy,
+	}
 }
 
 func (i *icache) get(k string) (Account, bool) {
@@ -70,6 +95,7 @@ func (i *icache) update(k string, props MutableProps) {
 	i.Lock()
 	defer i.Unlock()
 
+	i.changes++
 	item, found := i.items[k]
 	if found {
 		updateAcc(&item.value, props)
@@ -83,6 +109,7 @@ func (i *icache) update(k string, props MutableProps) {
 
 func (i *icache) Delete(k string) {
 	i.Lock()
+	i.changes++
 	delete(i.items, k)
 	i.Unlock()
 }
@@ -163,6 +190,10 @@ func (c *IAMCache) GetUserAccount(access string) (Account, error) {
 		return acct, nil
 	}
 
+	// an update or a delete that is acknowledged while the lookup is on
+	// its way must win over what the lookup brings back
+	count := c.iamcache.changeCount()
+
 	a, err := c.service.GetUserAccount(access)
 	if err != nil {
 		return Account{}, err
@@ -170,7 +201,7 @@ func (c *IAMCache) GetUserAccount(access string) (Account, error) {
 
 	// the key has to outlive the request as well: without a copy it can
 	// point into the request buffer that Fiber reuses
-	c.iamcache.set(strings.Clone(access), a)
+	c.iamcache.setIfUnchanged(strings.Clone(access), a, count)
 	return a, nil
 }
 
